@@ -17,7 +17,8 @@ RULE = ("seeded systems (1-3 molecule types, chains/trees/rings of 1-8 residues 
         "explicit periodic images (inside box, exactly one step from the parent under minimum image, start on a "
         "grid point, no residue closer than 0.1 nm, soft-sphere force from non-neighbours within the cut-off <= limit); "
         "a boundary-stress stratum uses boxes of 2.4-3.2 nm so that many steps wrap. non-trivial = run with >= 5 "
-        "checked placements; distinct = hash(topology text, options)")
+        "checked placements; distinct = hash(topology text, options)"
+        ' Later strata: force limit and step factor taken from the call, two residue definitions under one name, boxes that are whole multiples of the grid spacing (start must lie in [0, L)).')
 ASSUMPTIONS = ["residue sizes are read from the captured topology.volumes (independent of the engine's interaction table)",
                "inside the box is tested as 0 <= x <= L (x % L may return L for x = -eps)",
                "overlap / force are checked against the residues positioned at the time of acceptance"]
